@@ -334,9 +334,10 @@ Proof. unfold resolve. intros -> -> ->. reflexivity. Qed.
 
 Lemma create_type_wf tr n sup tr' : wf_tree tr -> create_type tr n sup = Ok tr' -> wf_tree tr'.
 Proof.
-  unfold create_type. intros W. destruct (memb sup final_types); [discriminate|].
+  unfold create_type. intros W.
   destruct (has_type tr n) eqn:En; [discriminate|].
   destruct (resolve tr sup) as [p| |] eqn:Er; cbn [bind]; try discriminate.
+  destruct (memb p final_types); [discriminate|].
   intros H. inversion H; subst. cbn [wf_tree]. repeat split; [|eapply resolve_in; exact Er|exact W].
   intros Hin. apply memb_In in Hin. unfold has_type in En. congruence.
 Qed.
@@ -884,7 +885,8 @@ Proof.
   cbv zeta. cbn [step]. destruct (create_type (s_tree st) n sup) as [tr'| |] eqn:E; cbn [fst s_views s_handles s_tree];
     (split; [reflexivity|]); (split; [reflexivity|]); intros W; try (split; [exact W|tauto]).
   pose proof (create_type_wf _ _ _ _ W E) as W'. split; [exact W'|]. intros a T Ha.
-  unfold create_type in E. destruct (memb sup final_types); [discriminate|]. destruct (has_type (s_tree st) n); [discriminate|].
-  destruct (resolve (s_tree st) sup) as [p| |]; cbn [bind] in E; try discriminate. inversion E; subst tr'.
+  unfold create_type in E. destruct (has_type (s_tree st) n); [discriminate|].
+  destruct (resolve (s_tree st) sup) as [p| |]; cbn [bind] in E; try discriminate.
+  destruct (memb p final_types); [discriminate|]. inversion E; subst tr'.
   apply sub_cons_old; [exact W'|]. apply memb_In. exact Ha.
 Qed.
